@@ -35,7 +35,7 @@ pub fn stages(tier: Tier, run: RunFn<Hist>, rule: &'static str) -> Vec<Box<dyn D
 
 pub fn property(tier: Tier) -> Property {
     Property {
-        id: "C01",
+        id: "C01", scale: tier.pick(5, 2),
         stages: stages(
             tier,
             run,
